@@ -17,10 +17,11 @@ use crate::m_ast::{decode_src, hex};
 use oq3_semantics::asg;
 use oq3_semantics::semantic_error::SemanticErrorKind;
 use oq3_semantics::symbols::{SymbolError, SymbolIdResult, SymbolTable};
-use oq3_semantics::syntax_to_semantics::parse_source_string;
+use oq3_semantics::syntax_to_semantics::analyze_source;
 use oq3_semantics::types::Type;
 use oq3_source_file::SourceTrait;
 use std::panic::{catch_unwind, AssertUnwindSafe};
+use std::path::PathBuf;
 
 fn ty(t: &Type) -> String {
     show_t(t).replace(' ', "_")
@@ -349,12 +350,18 @@ pub fn error_kind(k: &SemanticErrorKind) -> &'static str {
 }
 
 fn run(src: &str) -> String {
-    let result = parse_source_string(src, None);
-    if result.any_syntax_errors() {
+    // The two steps of `syntax_to_semantics::parse_source_string(src, None)`, with the
+    // include check in between (so that the outcome does not depend on what analysis does later).
+    let parsed = oq3_source_file::parse_source_string(src, None, None::<&[PathBuf]>);
+    if parsed.have_syntax_errors() {
         return "SYNTAX-ERRORS".into();
     }
-    if !result.syntax_result().included().is_empty() {
+    if !parsed.included().is_empty() {
         return "UNSUPPORTED-INCLUDE".into();
+    }
+    let result = analyze_source(parsed);
+    if result.any_syntax_errors() {
+        return "SYNTAX-ERRORS".into();
     }
     let asg_s = list(result.program().stmts(), stmt);
     let table = result.symbol_table();
